@@ -8,6 +8,7 @@ import (
 	"os"
 	"sync"
 	"testing"
+	"time"
 
 	"verif/mc/chain"
 	"verif/mc/ev"
@@ -1096,8 +1097,8 @@ func rehashBlock(e *chain.Entry) bool {
 }
 
 func TestCheck(t *testing.T) {
+	r0 := time.Now()
 	r := ev.Start("C02", "exploration")
-	r.SetBudget(ev.Pick(r, 200, 2400))
 	versions := ev.Pick(r, []string{"0.13.2", "0.14.0", "0.14.1"}, []string{"0.13.2", "0.13.4", "0.14.0", "0.14.1"})
 	var tampers []tamper
 	tampers = append(tampers, headerTampers()...)
@@ -1160,10 +1161,22 @@ func TestCheck(t *testing.T) {
 	distinct := map[string]bool{}
 	applicable := map[string]bool{}
 	// part L (long blocks x GOMAXPROCS) switches the process-wide parallelism: it runs alone, before anything else
-	runLongBlocks(r, distinct, &mu)
-	if os.Getenv("VERIF_C02_PART") == "L" { // development aid: part L only
+	// part N (network configurations) is cheap and runs first of all, so that it is never cut by the time budget
+	part := os.Getenv("VERIF_C02_PART") // development aid: N | L | I = that part only
+	// (it does not consult the deadline; the budget of the other parts is installed afterwards and extended by the time
+	// part N took - at most 90 s - so that under load it does not eat their share)
+	tN := time.Now()
+	if part == "" || part == "N" {
+		runNetConfigs(t, r, tampers, chains, distinct, &mu)
+	}
+	r.Set("netcfg_part_seconds", int64(time.Since(tN).Seconds()))
+	r.SetBudget(ev.Pick(r, 200, 2400) + int(min(time.Since(r0), 90*time.Second).Seconds()))
+	if part == "" || part == "L" {
+		runLongBlocks(r, distinct, &mu)
+	}
+	if part != "" {
 		jobs = nil
-		r.Incomplete("VERIF_C02_PART=L: only part L ran")
+		r.Incomplete("VERIF_C02_PART=" + part + ": only that part ran")
 	}
 	ev.Par(len(jobs), 14, func(ji int) {
 		if r.OutOfTime() {
@@ -1245,8 +1258,10 @@ func TestCheck(t *testing.T) {
 			r.Violate(fmt.Sprintf("memory-differs-from-disk-after-rejection %s level=%s %s", cls, j.level, label), map[string]any{"case": detail, "differing": diff})
 		}
 	})
-	if os.Getenv("VERIF_C02_PART") != "L" {
+	if part == "" {
 		runFixtures(t, r, tampers, distinct, &mu)
+	}
+	if part == "" || part == "I" {
 		runIsolated(t, r, tampers)
 	}
 	r.Set("distinct_nontrivial", int64(len(distinct)))
@@ -1258,10 +1273,11 @@ func TestCheck(t *testing.T) {
 		}
 	}
 	r.Set("catalogue_never_applicable", na)
-	r.Set("rule", "cases = (protocol version, state backend, chain position 0..4, tamper of the frozen catalogue, consistency level raw | tx hash recomputed | tx hashes+commitments+block hash recomputed); a case counts when the tamper applies to that block (changes a committed field); every case must be rejected by SanityCheckNewHeight->Store, leave the KV image byte-identical, and the same node object must then store the genuine block and equal the never-tampered twin on disk and through the Reader API; part L (long blocks): cases = (GOMAXPROCS p of long_block_gomaxprocs_set, set with runtime.GOMAXPROCS and restored, (version, backend) pair, transaction count N of block 1 in 1..2p+3 and the larger counts listed in long_block_tx_counts, EVERY item index i<N, per-item tamper: a hashed transaction field keeping the declared hash | the declared hash | a signature element | receipt fee | message payload | event data [thorough: the whole per-item catalogue, also with the hash recomputed]); each must be rejected with the KV image byte-identical and the same node must then store the genuine N-transaction block")
+	r.Set("rule", "cases = (protocol version, state backend, chain position 0..4, tamper of the frozen catalogue, consistency level raw | tx hash recomputed | tx hashes+commitments+block hash recomputed); a case counts when the tamper applies to that block (changes a committed field); every case must be rejected by SanityCheckNewHeight->Store, leave the KV image byte-identical, and the same node object must then store the genuine block and equal the never-tampered twin on disk and through the Reader API; part L (long blocks): cases = (GOMAXPROCS p of long_block_gomaxprocs_set, set with runtime.GOMAXPROCS and restored, (version, backend) pair, transaction count N of block 1 in 1..2p+3 and the larger counts listed in long_block_tx_counts, EVERY item index i<N, per-item tamper: a hashed transaction field keeping the declared hash | the declared hash | a signature element | receipt fee | message payload | event data [thorough: the whole per-item catalogue, also with the hash recomputed]); each must be rejected with the KV image byte-identical and the same node must then store the genuine N-transaction block; part N (network configurations): cases = (chain of netcfg_chains, custom network = the chain's own network with BlockHashMetaInfo replaced: unverifiable range nil or any pair [a,b] over {0..H, 2^63, 2^64-1} incl. a>b | First07Block | fallback sequencer address, chain position, representative tamper [thorough: whole catalogue], level); a case counts when the tamper applies; a block contradicting the node's state must be rejected under every configuration, any other tamper whenever the block number is outside the declared range (a<=n<=b), with the image byte-identical; the genuine block must then be stored")
 	r.Sample(map[string]any{"version": versions[0], "position": 1, "tamper": "receipt[0].l1-data-gas-consumed", "level": "raw"})
 	r.Sample(map[string]any{"version": versions[len(versions)-1], "position": 2, "tamper": "diff.migrated-casm", "level": "block-rehashed"})
 	r.Sample(map[string]any{"catalogue": len(tampers), "jobs": len(jobs)})
+	r.Assume = append(r.Assume, "part N varies only BlockHashMetaInfo of the chain's built-in network; unverifiable ranges have exactly two elements or are nil; tampered blocks inside a declared range are not judged unless they contradict the node's own state")
 	r.Assume = append(r.Assume, "part L pairs each protocol version with one state backend (a per-item tamper is refused by SanityCheckNewHeight, before the backend is reached) and uses the transaction kinds whose hash juno recomputes (thorough adds the family with deploy v0 / declare v0 in the cycle); its transaction counts go up to 2*GOMAXPROCS+3 for the listed GOMAXPROCS values only")
 	r.Assume = append(r.Assume, "catalogue of committed fields is hand-written from the protocol hash definitions (fields the protocol does not commit - events bloom, header signatures, L2 gas in receipts, VM resource counters, deploy v0 / declare v0 body fields - are deliberately absent)",
 		"synthetic valid blocks come from mc/chain (roots from the independent reftrie); older formats are covered by the feeder fixture chains sepolia 0..6 (0.12.3) and mainnet 0..2 (pre-0.7) with the catalogue restricted to what those formats commit")
